@@ -108,6 +108,71 @@ pub fn cells() -> Vec<Cell> {
     out
 }
 
+/// Fails the first open of a path with the given suffix.
+struct FailOpenOf {
+    suffix: String,
+    errno: i32,
+    done: std::sync::atomic::AtomicBool,
+}
+
+impl crate::shim::Controller for FailOpenOf {
+    fn before(&self, ev: &crate::shim::Ev) -> crate::shim::Action {
+        if ev.kind == Kind::Open
+            && ev.path.as_ref().map(|p| p.ends_with(&self.suffix)).unwrap_or(false)
+            && !self.done.swap(true, std::sync::atomic::Ordering::SeqCst)
+        {
+            return crate::shim::Action::Fail(self.errno);
+        }
+        crate::shim::Action::Proceed
+    }
+}
+
+/// A copy that cannot be opened (EACCES, EIO, EMFILE) cannot have been accepted by the checker:
+/// the lookup must not succeed as if that level did not hold the key.
+fn unreadable_copy_cases(cell: &Cell, run: &CellRun, rep: &mut Report) {
+    let m = model(cell);
+    if cell.checker != 1 || m.must_compare.is_empty() || !matches!(run.outcome.res, Res::Hit(_)) {
+        return;
+    }
+    let w = if cell.has_writer() { 1 } else { 0 };
+    for &lvl in &m.must_compare {
+        if lvl < w {
+            continue;
+        }
+        let dirname = format!("r{}", lvl - w);
+        let rel = run.copies[lvl].as_ref().unwrap().0.clone();
+        for errno in [libc::EACCES, libc::EIO] {
+            let ctl = std::sync::Arc::new(FailOpenOf {
+                suffix: format!("/{}/{}", dirname, rel),
+                errno,
+                done: std::sync::atomic::AtomicBool::new(false),
+            });
+            CONTROLLER.with(|c| *c.borrow_mut() = Some(ctl.clone() as std::sync::Arc<dyn crate::shim::Controller>));
+            let r2 = run_cell(cell);
+            CONTROLLER.with(|c| *c.borrow_mut() = None);
+            rep.evaluations += 1;
+            rep.states += 1;
+            rep.traces += 1;
+            rep.transitions += r2.trace.len() as u64;
+            rep.count("unreadable_copy_cases", 1);
+            let fired = ctl.done.load(std::sync::atomic::Ordering::SeqCst);
+            if fired && matches!(r2.outcome.res, Res::Hit(_) | Res::HitUnread) {
+                rep.violation(
+                    "checker:unreadable-copy-skipped",
+                    format!(
+                        "{}: opening the copy in level {} failed with errno {}, yet the lookup succeeded ({}) without that copy ever being shown to the checker",
+                        cell.to_json(),
+                        lvl,
+                        errno,
+                        r2.outcome.res.label()
+                    ),
+                    serde_json::json!({"cell": cell.to_json(), "unreadable_level": lvl, "errno": errno}),
+                );
+            }
+        }
+    }
+}
+
 fn record(cell: &Cell, rep: &mut Report) {
     rep.evaluations += 1;
     rep.states += 1;
@@ -126,6 +191,7 @@ fn record(cell: &Cell, rep: &mut Report) {
     for (sig, msg) in check(&run) {
         rep.violation(format!("checker:{}", sig), format!("{}: {}", cell.to_json(), msg), cell.to_json());
     }
+    unreadable_copy_cases(cell, &run, rep);
 }
 
 pub fn run(_tier: Tier, shard: Shard, rep: &mut Report) {
@@ -134,7 +200,8 @@ pub fn run(_tier: Tier, shard: Shard, rep: &mut Report) {
         {A, B, NotFound, other error} x checker {none, inode-logging byte equality, panicking byte equality, library byte equality}; \
         oracle: success iff all present copies (and the populated value when compared) are identical, every redundant copy's inode \
         appears in the checker's invocation log, errors/panics reach the caller, no checker => later levels not opened and populate \
-        not called on an accepted hit. Non-trivial = checker configured and >= 2 copies present."
+        not called on an accepted hit; for every successful checker cell, each redundant copy in a read-only level is made \
+        unreadable in turn (its open fails with EACCES / EIO): the lookup must then not succeed. Non-trivial = checker configured and >= 2 copies present."
         .into();
     rep.assumptions = vec!["checker invocations are identified by the (dev, inode) of both file arguments".into()];
     let all = cells();
@@ -151,5 +218,6 @@ pub fn run(_tier: Tier, shard: Shard, rep: &mut Report) {
 }
 
 pub fn replay(case: &Value, rep: &mut Report) {
-    record(&Cell::from_json(case), rep);
+    let cell = case.get("cell").unwrap_or(case);
+    record(&Cell::from_json(cell), rep);
 }
